@@ -122,7 +122,44 @@ func Fail(label string) {
 func Reach(label string)            { Reached = append(Reached, label) }
 func KnownRegion(id string, c bool) {}
 func Observe(name string, v interface{}) {
-	Observed = append(Observed, fmt.Sprintf("%s=%v", name, v))
+	Observed = append(Observed, name+"="+render(v, 0))
+}
+
+// render is the canonical rendering shared with the engine's predictions.
+func render(v interface{}, depth int) string {
+	if depth > 4 {
+		return "..."
+	}
+	if v == nil {
+		return "{?}"
+	}
+	rv := reflect.ValueOf(v)
+	switch rv.Kind() {
+	case reflect.Bool:
+		if rv.Bool() {
+			return "true"
+		}
+		return "false"
+	case reflect.Int, reflect.Int8, reflect.Int16, reflect.Int32, reflect.Int64:
+		return fmt.Sprintf("%d", rv.Int())
+	case reflect.Uint, reflect.Uint8, reflect.Uint16, reflect.Uint32, reflect.Uint64, reflect.Uintptr:
+		return fmt.Sprintf("%d", rv.Uint())
+	case reflect.String:
+		return fmt.Sprintf("%q", rv.String())
+	case reflect.Slice:
+		if rv.Type().Elem().Kind() == reflect.Uint8 {
+			return "x" + fmt.Sprintf("%x", rv.Bytes())
+		}
+		out := "["
+		for i := 0; i < rv.Len(); i++ {
+			if i > 0 {
+				out += " "
+			}
+			out += render(rv.Index(i).Interface(), depth+1)
+		}
+		return out + "]"
+	}
+	return "{" + fmt.Sprintf("%T", v) + "}"
 }
 func IsConcrete(v interface{}) bool { return true }
 func Comparable(v interface{}) bool {
@@ -312,6 +349,11 @@ func RunReplays(t *testing.T, hs map[string]func()) {
 				Reset()
 				loadFile(fs[1])
 				h()
+				if rep == 0 {
+					for _, o := range Observed {
+						fmt.Printf("VSYM-OBS %d %s\n", i, o)
+					}
+				}
 				if len(Failures) > 0 {
 					fmt.Printf("VSYM-RESULT %d %s failed: %v\n", i, fs[0], Failures)
 					return
